@@ -103,13 +103,25 @@ def run(ctx):
     shapes.append(("torus4x5", len(P), F, P, "some"))
     for name, nv, Fl in meshes.library_surfaces(rng, big=thorough):
         if all(len(f) == 3 for f in Fl) and meshes.is_manifold(nv, Fl) and 4 <= len(Fl) <= 120 and "two-components" not in name and "isolated" not in name:
-            Pl = []
-            seen = set()
-            while len(Pl) < nv:
-                p = (rng.randint(0, 9), rng.randint(0, 9), rng.randint(0, 9))
-                if p not in seen:
-                    seen.add(p)
-                    Pl.append(list(p))
+            def degenerate(Pc):          # a face with collinear corners is outside the property's domain (non-degenerate triangulations)
+                for a, b, c in Fl:
+                    u = [Pc[b][k] - Pc[a][k] for k in range(3)]
+                    w = [Pc[c][k] - Pc[a][k] for k in range(3)]
+                    if (u[1] * w[2] - u[2] * w[1], u[2] * w[0] - u[0] * w[2], u[0] * w[1] - u[1] * w[0]) == (0, 0, 0):
+                        return True
+                return False
+            for _attempt in range(50):
+                Pl = []
+                seen = set()
+                while len(Pl) < nv:
+                    p = (rng.randint(0, 9), rng.randint(0, 9), rng.randint(0, 9))
+                    if p not in seen:
+                        seen.add(p)
+                        Pl.append(list(p))
+                if not degenerate(Pl):
+                    break
+            else:
+                continue
             shapes.append(("L-" + name, nv, Fl, Pl, "some"))
     cases = []
     for name, nv, F, P, how in shapes:
